@@ -30,6 +30,11 @@ CLAIMS = {
         "Trusted: symx interception layer, z3; stubs: read objects / AlignmentFile.fetch, pysam.bedcov's output format, in-memory regions file. Not decided: samtools bedcov itself (hence pileup = count), BAM decoding, real process pools.",
         "DESIGN.md 4/C09",
     ),
+    "C10": (
+        "Histories and schedules are replaced by one inductive step per API: for each of 25 entry points (do_call in every method with filter lists, segmentation, segmetrics, genemetrics, breaks, bintest, export bed/vcf, center_all on a copy, by_gene/by_arm, merge/flatten/subtract/intersection/subdivide/resize, target, antitarget, fix) run on symbolic tables, z3 proves per path that every cell of every argument table, every list/dict argument and every module-level value or function default of cnvlib/skgenome is unchanged, and that repeating the call gives the same table; with the frame intact and the result a function of the arguments only, call sequences of any length give the same tables. np.random is replaced by a generator whose draws are arbitrary solver-chosen outcomes until seeded: center_by_window (tied covariates), the bootstrap interval and shuffle give the same result as under the real generator. ensure_path on a dictionary file system with a solver-chosen set of pre-existing name, name.1..3: k writes leave k more files and every earlier content intact.",
+        "Trusted: symx interception layer, z3; stubs: np.random (arbitrary until seeded), os (dictionary file system), norm.cdf, biweight_midvariance in do_fix. Real multi-process execution (1 vs N workers) is not exercised.",
+        "DESIGN.md 4/C10",
+    ),
     "C12": (
         "The real do_target (zero-width filter, --split through subdivide, label shortening) and do_antitarget (drop_noncanonical_contigs / guessed extents, resize_ranges(-500), subtract of the padded targets, subdivide) run on 1-2 baits and one accessible region with symbolic coordinates (overlap, nesting, abutting, zero width reachable) plus concrete untargeted canonical / non-canonical contigs. z3 proves per path: target bins cover exactly the union of the non-empty baits, are disjoint, ordered, cut into max(1, round(L/avg)) equal bins; antitargets are named Antitarget, lie inside the accessible region shrunk by 500 and outside every target padded by 500 (one universally quantified position), are pairwise disjoint, have size in [min, 1.5 avg], and cover every window of off-target accessible sequence of at least the minimum size; untargeted canonical contigs are binned, non-canonical ones skipped.",
         "Trusted: symx interception layer, z3. Average/minimum sizes are concrete ({(1000,300),(700,200)} with coordinates <= 6000); annotation files are not exercised.",
